@@ -778,3 +778,47 @@ def net_abrupt_checks(tier, binaries, log, variants, prop, tls_midresp=True):
                 res.append((False, "real socket (%s): an exception escaped into the event loop (%s)" % (h, kv.get("srv_exception")), cmdline, {}))
     res.append((True, "", "", {"real_socket_abrupt_close_runs": n, "real_socket_abrupt_samples": samples}))
     return res
+
+
+def net_twoshut_checks(tier, binaries, log, variants, prop):
+    """the library ends idle connections (handler calls disconnect()) and http_server::shutdown() reaches the same
+    connections again BEFORE their peers have reacted; the peers then close (TLS: answer the close_notify): every
+    connection must still be signalled as disconnected and released, and the event loop must run out of work"""
+    import re
+    import subprocess
+    import vlib
+    res = []
+    n = 0
+    for h in variants:
+        try:
+            binary = binaries.get(h) or vlib.build_harness(h, log)
+        except vlib.BuildError as e:
+            res.append((False, "net_driver (%s) does not build against the current tree: %s" % (h, str(e)[-300:]), "build " + h, {}))
+            continue
+        for n_conn in ((1, 4) if tier == "quick" else (1, 2, 4, 16, 40)):
+            args = ["twoshut", "n=%d" % n_conn]
+            cmdline = "%s %s" % (h, " ".join(args))
+            try:
+                r = subprocess.run([binary] + args, capture_output=True, text=True, timeout=120)
+            except subprocess.TimeoutExpired:
+                res.append((False, "net_driver %s hung" % " ".join(args), cmdline, {}))
+                continue
+            m = re.search(r"^RESULT (.*)$", r.stdout, re.M)
+            n += 1
+            if not m:
+                res.append((False, "abort: net_driver failed (exit status %d): %s" % (r.returncode, (r.stdout + r.stderr)[-300:]), cmdline, {}))
+                continue
+            kv = dict(x.split("=", 1) for x in m.group(1).split() if "=" in x)
+            if kv.get("errors") != "0" or kv.get("handled") != str(n_conn):
+                continue        # the scenario did not take place (peer could not connect): nothing to judge
+            if kv.get("connected") != kv.get("disconnected"):
+                res.append((False, "real socket (%s): %s connections were ended by the library and then again by http_server::shutdown(); "
+                            "their peers closed in answer, yet only %s were ever signalled as disconnected: the rest are retained" % (
+                                h, kv.get("connected"), kv.get("disconnected")), cmdline, {}))
+            elif kv.get("srv_clean_exit") != "1":
+                res.append((False, "real socket (%s): the event loop still had outstanding work after a connection was shut down twice "
+                            "and its peer closed" % h, cmdline, {}))
+            elif kv.get("srv_exceptions") != "0":
+                res.append((False, "real socket (%s): an exception escaped into the event loop" % h, cmdline, {}))
+    res.append((True, "", "", {"real_socket_double_shutdown_runs": n}))
+    return res
